@@ -186,7 +186,7 @@ class MultivariateNormal(TMultivariateNormal, Distribution):
         new_loc = self.loc.unsqueeze(dim)
         if self.islazy:
             new_covar = self._covar.unsqueeze(dim)
-            new = self.__class__(mean=new_loc, covariance_matrix=new_covar)
+            new = self._new_like(mean=self.mean.unsqueeze(dim), covariance_matrix=new_covar)
             if self.__unbroadcasted_scale_tril is not None:
                 # Reuse the scale tril if available.
                 new.__unbroadcasted_scale_tril = self.__unbroadcasted_scale_tril.unsqueeze(dim)
